@@ -386,6 +386,17 @@ def substEv (pat rep : Str) (count : Nat) : MItem → MItem
 
 def substitute (pat rep : Str) (count : Nat) (s : MStream) : MStream := s.map (substEv pat rep count)
 
+/-- `MapTransformation(function, TEXT)` for ANY function on the data of a TEXT event (text and
+    whether it is a `Markup` instance) -/
+def mapTextEv (f : Str → Bool → Str × Bool) : MItem → MItem
+  | (some m, .ev (.text t sf)) => (some m, .ev (.text (f t sf).1 (f t sf).2))
+  | p => p
+
+def mapText (f : Str → Bool → Str × Bool) (s : MStream) : MStream := s.map (mapTextEv f)
+
+/-- `TraceTransformation`: prints every item it is given and yields it as it is -/
+def trace (s : MStream) : MStream := s
+
 /-- `FilterTransformation`: `queue` collects one selection, `flush` re-emits `f queue` marked
     OUTSIDE.  The event that ends an OUTSIDE run is yielded as it is (not pushed back). -/
 inductive FilSt where
@@ -437,6 +448,8 @@ inductive Op where
   | copy (id : Nat) (acc : Bool) | cut (id : Nat) (acc : Bool) | buffer
   | mapBang (all : Bool) | subst (pat rep : Str) (count : Nat)
   | filter (f : List MEv → List MEv)      -- any stream filter (as a function on event lists)
+  | mapText (f : Str → Bool → Str × Bool) -- `map(function, TEXT)` for any function
+  | trace
   deriving Inhabited
 
 abbrev Bufs := List (Nat × List MEv)
@@ -479,6 +492,8 @@ def applyOp (b : Bufs) : Op → MStream → Option (MStream × Bufs)
   | .mapBang all, s => some (mapBang all s, b)
   | .subst p r n, s => some (substitute p r n s, b)
   | .filter f, s => some (filterSel f s, b)
+  | .mapText f, s => some (mapText f s, b)
+  | .trace, s => some (trace s, b)
 
 def runChain : List Op → Bufs → MStream → Option (MStream × Bufs)
   | [], b, s => some (s, b)
